@@ -359,9 +359,10 @@ func DumpLogs() string {
 // an independent, direct statement of "Yield suspends the function, MoveNext resumes it".
 
 type coMsg[T any] struct {
-	v     T
-	done  bool
-	panic any
+	v        T
+	done     bool
+	panic    any
+	panicked bool // the body panicked (the value may be nil: panic(nil) before go 1.21)
 }
 
 type Co[T any] struct {
@@ -384,14 +385,16 @@ func (c *Co[T]) MoveNext() bool {
 	if !c.started {
 		c.started = true
 		go func() {
+			normal := false
 			defer func() {
 				r := recover()
-				c.out <- coMsg[T]{done: true, panic: r}
+				c.out <- coMsg[T]{done: true, panic: r, panicked: !normal}
 			}()
 			c.body(func(v T) {
 				c.out <- coMsg[T]{v: v}
 				<-c.resume
 			})
+			normal = true
 		}()
 	} else {
 		c.resume <- struct{}{}
@@ -401,7 +404,7 @@ func (c *Co[T]) MoveNext() bool {
 		c.done = true
 		var z T
 		c.cur = z
-		if m.panic != nil {
+		if m.panicked {
 			panic(m.panic)
 		}
 		return false
